@@ -23,7 +23,10 @@ EXPLANATION = (
     "HSalsa20(zero input, X25519(sk, pk)). PRECALC: every public two-argument constructor returning a "
     "PrecalcSecretKey returns a value that depends on crypto_box_beforenm(both arguments) or on a constructor it "
     "delegates to. ROLE: at every crate-internal call edge, a value the caller names as a secret key (parameter, "
-    "named local or record field) is not passed where the callee names a public key, and vice versa.")
+    "named local or record field) is not passed where the callee names a public key, and vice versa. KX-WRAP: every "
+    "public function that returns a kx::Session and whose public name says client (server) reaches, in the crate's "
+    "call graph (resolved calls, closures, function items used as values), the classic session-key function of "
+    "that side; when neither side is visible the wrapper is reported as not decided.")
 NOT_DECIDED = ("numerical correctness of the Montgomery ladder / X25519 output for every scalar and point; "
                "commutativity of DH; equality of session keys with libsodium (BLAKE2b as a function).")
 
@@ -305,10 +308,14 @@ def kx_wrappers(rep, prog, cl, sv):
         want = [w for w in ("client", "server") if w in name]
         if len(want) != 1:
             continue
+        if "kx::Session<" not in f.locals[0]["t"]:
+            continue        # the wrappers are told by what they return: a session
+        n += 1
         got = reach(f)
         if not got:
+            # neither side is visible in the call graph (a table of function pointers in a constant, a `dyn Fn`)
+            rep.note("KX-WRAP: %s - no session-key function visible in the call graph, not decided" % f.path)
             continue
-        n += 1
         # (a shared helper that picks the side from a flag makes both reachable: call-graph reachability cannot
         # tell which one runs, so only "the own side is not reachable at all" is reported)
         rep.ob("KX-WRAP", "%s|reaches the %s session-key function" % (f.path, want[0]), want[0] in got,
